@@ -48,7 +48,7 @@ static const Sig SIGS[] = {
     {"KQKP", "Q", "P"},      {"KRKP", "R", "P"},      {"KNNK", "NN", ""},       {"KNNKP", "NN", "P"},    {"KBPKB", "BP", "B"},
     {"KBPsKB2", "BPP", "B"}, {"KBPsKB3", "BPPP", "B"}, {"KRKB", "R", "B"},      {"KRKN", "R", "N"},      {"KQKRP", "Q", "RP"},
     {"KQKRPP", "Q", "RPP"},  {"KBBKN", "BB", "N"},    {"KBNKN", "BN", "N"},     {"KNNKB", "NN", "B"},    {"KBBKB", "BB", "B"},
-    {"KQPKQ", "QP", "Q"},    {"KRPKR", "RP", "R"},    {"KNPKN", "NP", "N"},     {"KRRKR", "RR", "R"},    {"KQKBB", "Q", "BB"},
+    {"KXK_max", "QQQQQQQQQRRBBNN", ""}, {"KXK_9Q1R", "QQQQQQQQQR", ""}, {"KQPKQ", "QP", "Q"},    {"KRPKR", "RP", "R"},    {"KNPKN", "NP", "N"},     {"KRRKR", "RR", "R"},    {"KQKBB", "Q", "BB"},
 };
 static const int NSIGS = int(sizeof(SIGS) / sizeof(SIGS[0]));
 
@@ -502,6 +502,16 @@ bool prop_C14(Tape& t, Report& rep)
             rep.cls("c14:clear");
             continue;
         }
+        else if (op == 4 && t.flag())
+        {
+            // a small fixed pool that is re-evaluated in many different histories
+            static const char* POOL[] = {"4k3/8/8/4P3/4K3/8/8/8 w - - 0 1", "k7/8/8/8/8/8/P7/K7 w - - 0 1", "8/8/8/8/8/5K2/p4Q2/1k6 w - - 0 1",
+                                         "4k3/8/8/8/8/8/8/3QK3 w - - 0 1", "4k3/8/8/8/8/8/8/3RK3 b - - 0 1", "8/5k2/8/8/3K4/8/1r3P2/4R3 w - - 0 1",
+                                         "r1bqkbnr/pppp1ppp/2n5/4p3/4P3/5N2/PPPP1PPP/RNBQKB1R w KQkq - 2 3", "8/8/4k3/4p3/4P3/4K3/8/8 b - - 0 1"};
+            ref::from_fen(POOL[t.choose(8)], p);
+            what = "fixed_pool";
+            rep.cls("c14:fixed_pool_eval");
+        }
         else if (op == 4)
         {
             p = pawnless(t);
@@ -529,6 +539,24 @@ bool prop_C14(Tape& t, Report& rep)
         Value w = warm->score(pos);
         Value f = fresh_score(p);
         rep.eval();
+        {
+            // purity across histories: the first value ever seen for a position (process-wide) must be the value every
+            // later evaluation gives, whatever was evaluated in between (catches state outside the evaluator object)
+            static std::unordered_map<std::string, Value> firstSeen;
+            std::string k4 = ref::key4(p);
+            auto it = firstSeen.find(k4);
+            if (it == firstSeen.end())
+            {
+                if (firstSeen.size() < 400000) firstSeen.emplace(k4, f);
+            }
+            else
+            {
+                rep.cls("c14:re_evaluated_in_another_history");
+                if (it->second != f)
+                    return rep.fail("purity:history:" + what, "a fresh evaluator gives " + std::to_string(f) + " for " + ref::to_fen(p) + " but gave " +
+                                                                  std::to_string(it->second) + " earlier in this process: the evaluation depends on what was evaluated before\n history:" + trace);
+            }
+        }
         trace += " eval(" + ref::to_fen(p) + ")";
         fp = mix64(fp ^ fnv1a(ref::key4(p)));
         rep.decoded = "history:" + trace;
@@ -540,6 +568,31 @@ bool prop_C14(Tape& t, Report& rep)
         if (s2.rfind("mate", 0) == 0 || f >= VALUE_INFINITE || f <= -VALUE_INFINITE)
             return rep.fail("bounded:mate_band", "static evaluation " + std::to_string(f) + " prints as '" + s2 + "' for " + ref::to_fen(p));
         if (std::abs(f) >= VALUE_KNOWN_WIN) rep.cls("c14:known_win_band");
+    }
+    // positions reached by playing moves on one Position object (what the search evaluates): warm evaluator on the played
+    // object vs a fresh evaluator on the same position loaded from its FEN
+    if (t.chance(1, 3))
+    {
+        gen::Root g = gen::gen_game(t, &rep, 40);
+        Position played(ref::to_fen(g.start));
+        ref::Pos rp = g.start;
+        std::string moves;
+        for (auto& m : g.moves)
+        {
+            bool pawnMove = ref::lower(rp.b[m.from]) == 'p';
+            played.do_move(played.parse_uci(m.uci()));
+            rp = ref::make(rp, m);
+            moves += " " + m.uci();
+            if (!t.chance(1, 2) && !pawnMove) continue;
+            if (ref::insufficient_material(rp)) continue;
+            Value w = warm->score(played);
+            Value f = fresh_score(rp);
+            rep.eval();
+            rep.cls("c14:played_position_eval");
+            if (w != f)
+                return rep.fail("purity:played_position", "evaluation of a position reached by playing moves (" + std::to_string(w) + ") differs from a fresh evaluator on the same position loaded from its FEN (" +
+                                                              std::to_string(f) + ")\n fen=" + ref::to_fen(rp) + "\n game: fen=" + ref::to_fen(g.start) + " moves" + moves + "\n earlier history:" + trace);
+        }
     }
     // the deterministic worst case for clear(): slot-0 structure, clear, pawnless
     if (!S.slot0.empty() && t.chance(1, 4))
